@@ -21,6 +21,13 @@ CHECKS = {
         note="Trusted: CPython's ast.parse/compile as the reference; the canonical form (self-tested: 6 equal pairs, 48 single-field perturbations); input convention of xonsh's own callers (exec/single text ends with newline, eval text does not). CR newlines, form feeds and coding declarations are out of domain.",
         design="2/C01",
     ),
+    "C02": dict(
+        category="exploration",
+        technique="differential property-based testing against CPython: constructed programs over binder kind x scope x command-looking probe, tree comparison with ast.parse and execution against builtin exec with logging operands",
+        text="Programs are built from every binder the property lists (all assignment target shapes, annotated assignment, imports, def, class, for, with-as, except-as, walrus, global, every parameter kind, builtins) x 14 scope placements (module/function/class/nested, binder outside and probe deeper, inside if/try/loop/with/match blocks) x 37 probe statements that are valid Python but look like commands, with names that are real executables and xonsh aliases. Execer.parse must give CPython's tree with no subprocess call; Execer.exec and builtin exec must produce the same ordered operator log and exception with nothing launched. `del NAME` must return the line to command interpretation; an invalid last line must raise SyntaxError with no side effect. Three recorded binder-tracking defects.",
+        note="Trusted: CPython exec as the reference; definiteness by construction (self-check: builtin exec raises no NameError); binders outside the property's list are not generated; programs failing the C01 oracle are skipped and counted.",
+        design="2/C02",
+    ),
     "C03": dict(
         category="exploration",
         technique="differential property-based testing (bare program vs generator-made explicit ![..] twin, traces compared) + grammar-aware string fuzzing of Execer.parse under a hang bound",
